@@ -581,6 +581,7 @@ impl<S: KSub> System for KSys<S> {
         self.prop
     }
     fn fresh(&self, cx: &mut Cx) -> Option<KObj<S>> {
+        rt::scrub_stack();
         rt::cb_reset(None);
         match guard(|| S::new(self.hint)) {
             Ok(sub) => Some(KObj { sub: Some(sub), model: vec![], t: 0, inj_used: 0, ins_count: [0; 256] }),
@@ -665,6 +666,9 @@ impl<S: KSub> System for KSys<S> {
             out.push(*e);
         }
         self.canon_sub(o.sub.as_ref().unwrap(), out);
+    }
+    fn raw_words(&self, o: &KObj<S>, out: &mut Vec<u64>) {
+        rt::raw_words_of(o.sub.as_ref().unwrap(), out);
     }
     fn nontrivial(&self, o: &KObj<S>) -> bool {
         Self::stored_count(o.sub.as_ref().unwrap()) >= 2
